@@ -6,10 +6,16 @@ V=$PWD
 mkdir -p build/ml
 cd coq
 [ -f Makefile ] || coq_makefile -f _CoqProject -o Makefile >/dev/null
-timeout 3000 make -j16 "$@" > ../build/coq_make.log 2>&1 || { tail -30 ../build/coq_make.log; exit 1; }
+# only what the executable model needs: a broken proof file must not stop the model from running
+timeout 3000 make -j16 gen/HashGen.vo gen/MemOrders.vo Core.vo Api.vo Spec.vo CApi.vo Conc.vo MemDefs.vo "$@" > ../build/coq_make.log 2>&1 || { tail -30 ../build/coq_make.log; exit 1; }
 cd ../build/ml
 if [ ! -f model_driver ] || [ -n "$(find ../../coq -maxdepth 2 -name '*.vo' -newer model_driver -print -quit)" ] || [ ../../ocaml/driver.ml -nt model_driver ] || [ ../../coq/Extract.v -nt model_driver ]; then
   cp ../../coq/Extract.v . && coqc -Q $V/coq LC Extract.v > extract.log 2>&1 || { cat extract.log; exit 1; }
   cp ../../ocaml/driver.ml .
   ocamlfind ocamlopt -w -a -O2 model.mli model.ml driver.ml -o model_driver > ocaml.log 2>&1 || { cat ocaml.log; exit 1; }
+fi
+if [ ! -f mem_driver ] || [ ../../coq/MemDefs.vo -nt mem_driver ] || [ ../../coq/gen/MemOrders.vo -nt mem_driver ] || [ ../../ocaml/mem_driver.ml -nt mem_driver ] || [ ../../coq/ExtractMem.v -nt mem_driver ]; then
+  cp ../../coq/ExtractMem.v . && coqc -Q $V/coq LC ExtractMem.v > extractmem.log 2>&1 || { cat extractmem.log; exit 1; }
+  cp ../../ocaml/mem_driver.ml .
+  ocamlfind ocamlopt -w -a -O2 memmodel.mli memmodel.ml mem_driver.ml -o mem_driver > ocamlmem.log 2>&1 || { cat ocamlmem.log; exit 1; }
 fi
